@@ -1,9 +1,10 @@
-/* C10.is_ipv4.ends_in_number (bounded): equals the Standard's "ends in a number checker" on every non-empty
- * lower-case input of up to BUF_N bytes (call sites pass a non-empty, lower-cased ASCII host). */
+/* C10.is_ipv4.ends_in_number (bounded): equals the Standard's (case-insensitive) "ends in a number checker" on every non-empty
+ * input without A-Z of up to BUF_N bytes (call sites pass a non-empty, lower-cased ASCII host). */
 void harness(void) {
   HAVOC_BUFS;
   ND_SV(view);
   __CPROVER_assume(view.n >= 1);
+  for (size_t i = 0; i < view.n; i++) __CPROVER_assume(!SPEC_ASCII_UPPER_ALPHA(view.p[i]));   /* precondition: the host was lower-cased by the caller */
   _Bool r = is_ipv4(view);
   _Bool e = ref_ends_in_number(view);
   __CPROVER_assert(r == e, "postcondition: is_ipv4 equals the ends-in-a-number checker");
